@@ -151,8 +151,15 @@ class G:
             return St("reassign", [first, "v%d = %s" % (n, self.e(ty))],
                       [("wrong_reassign", [first, "v%d = %s" % (n, w)], (1, 1), "%s <- %s" % (ty, t2)),
                        ("wrong_reassign", [first, "v%d: %s = %s" % (n, t2, w)], (1, 1), "retyped %s -> %s" % (ty, t2))])
-        return St("reassign_in_block", [first, "if gb {", "  v%d = %s" % (n, self.e(ty)), "}"],
-                  [("wrong_reassign", [first, "if gb {", "  v%d = %s" % (n, w), "}"], (2, 2), "%s <- %s (nested block)" % (ty, t2))])
+        # the variable is declared OUTSIDE the block, the re-assignment sits inside it (every kind of block, two deep too)
+        wraps = [(["if gb {"], ["}"]), (["while gb {"], ["  break", "}"]), (["from 0 to 1 {"], ["}"]), (["from 0 to 1, rb%d {" % n], ["}"]),
+                 (["if !gb {", "  rz%d = 0" % n, "} else {"], ["}"]), (["if !gb {", "  rz%d = 0" % n, "} else if gi > 0 {"], ["}"]),
+                 (["from 0 to 1 {", "if gb {"], ["}", "}"]), (["while gb {", "from 0 to 1, rc%d {" % n], ["}", "  break", "}"]),
+                 (["if gb {", "while gb {"], ["  break", "}", "}"])]
+        head, tail = self.r.choice(wraps)
+        k = len(head) + 1
+        return St("reassign_in_block", [first] + head + ["  v%d = %s" % (n, self.e(ty))] + tail,
+                  [("wrong_reassign", [first] + head + ["  v%d = %s" % (n, w)] + tail, (k, k), "%s <- %s (declared outside %s)" % (ty, t2, head[-1].strip()))])
 
     def t_call1(self):
         n, ty = self.uid(), self.r.choice(["int", "str", "float"])
@@ -300,6 +307,32 @@ class G:
         return St("list_literal", ["ll%d: [%s...] = [%s, %s]" % (n, ty, self.e(ty), self.e(ty))],
                   [("wrong_list_element", ["ll%d: [%s...] = [%s, %s]" % (n, ty, self.e(ty), w)], (0, 0), "%s <- %s" % (ty, t2))])
 
+    def t_fixed_list(self):
+        """fixed-shape list types `[T1, T2]`: the value must have exactly that shape (initializer, argument, result)"""
+        n = self.uid()
+        # a literal whose elements all have one type is an OPEN list (unknown length) and is accepted wherever the
+        # element types fit: the shape only binds when the element types differ
+        t1 = self.r.choice(TYPES)
+        t2 = self.other(t1)
+        a, b = self.e(t1), self.e(t2)
+        extra = self.e(self.r.choice(TYPES))
+        w1, _ = self.wrong(t1)
+        base = ["const fx%d: [%s, %s] = [%s, %s]" % (n, t1, t2, a, b),
+                "fh%d = fn(q: [%s, %s]) -> [%s, %s] {" % (n, t1, t2, t1, t2), "  return q", "}",
+                "const fy%d = fh%d([%s, %s])" % (n, n, a, b)]
+
+        def mut(i, line):
+            m = list(base)
+            m[i] = line
+            return m
+        return St("fixed_list", base,
+                  [("wrong_init", mut(0, "const fx%d: [%s, %s] = [%s, %s, %s]" % (n, t1, t2, a, b, extra)), (0, 0), "fixed list: one element too many"),
+                   ("wrong_init", mut(0, "const fx%d: [%s, %s] = [%s]" % (n, t1, t2, a)), (0, 0), "fixed list: one element too few"),
+                   ("wrong_init", mut(0, "const fx%d: [%s, %s] = [%s, %s]" % (n, t1, t2, w1, b)), (0, 0), "fixed list: wrong element type"),
+                   ("wrong_arg_type", mut(4, "const fy%d = fh%d([%s, %s, %s])" % (n, n, a, b, extra)), (4, 4), "fixed-list parameter: one element too many"),
+                   ("wrong_arg_type", mut(4, "const fy%d = fh%d([%s])" % (n, n, a)), (4, 4), "fixed-list parameter: one element too few"),
+                   ("wrong_return", mut(2, "  return [%s, %s, %s]" % (a, b, extra)), (1, 3), "fixed-list result: one element too many")])
+
     def t_class_def(self):
         n = self.uid()
         w, t2 = self.wrong("int")
@@ -383,7 +416,7 @@ class G:
 
     TEMPLATES = ["t_decl_annot", "t_decl_alias", "t_decl_optional", "t_reassign", "t_call1", "t_call2", "t_mcall", "t_field",
                  "t_fn_ret", "t_fn_void", "t_cond_if", "t_cond_while", "t_cond_elseif", "t_index_list", "t_index_map", "t_binop",
-                 "t_unary", "t_map_value", "t_list_elem", "t_class_def", "t_opassign_fit", "t_fn_ret_shapes"]
+                 "t_unary", "t_map_value", "t_list_elem", "t_class_def", "t_opassign_fit", "t_fn_ret_shapes", "t_fixed_list"]
     CONTEXTS = ["top", "function", "closure", "method", "constructor", "if", "else_if", "else", "while", "from"]
 
     # ---------------------------------------------------------------- contexts
